@@ -199,14 +199,16 @@ func (s *simConn) Dial(ctx context.Context) error {
 	return nil
 }
 
-func (s *simConn) Close() {
+func (s *simConn) Close() { s.closeHeld(true) }
+
+func (s *simConn) closeHeld(wait bool) {
 	s.c.mu.Lock()
 	ch := s.c.closeHold
-	if ch != nil {
+	if ch != nil && wait {
 		s.c.closeParked++
 	}
 	s.c.mu.Unlock()
-	if ch != nil {
+	if ch != nil && wait {
 		<-ch // a connection that takes its time to close (lingering socket, TLS shutdown)
 	}
 	if atomic.CompareAndSwapInt32(&s.closed, 0, 1) {
@@ -224,6 +226,14 @@ func (s *simConn) Close() {
 			}
 		}
 	}
+}
+
+// selfFail: what a region client does when the regionserver tells it — in a response header or,
+// since fix (multi), inside a multi response — that the server itself is going out of service: it
+// fails itself (connection closed, everything else outstanding on it completed with an error).
+func (s *simConn) selfFail() {
+	atomic.StoreInt32(&s.failed, 1)
+	s.closeHeld(false)
 }
 
 // Like the real region client, a connection does not send a call whose own context has already
@@ -475,6 +485,9 @@ func (s *simConn) serve(call hrpc.Call) {
 		go func() {
 			<-rel
 			deliver(nil, excErr(k))
+			if k == "connErr" {
+				s.selfFail()
+			}
 		}()
 		return
 	}
@@ -485,17 +498,25 @@ func (s *simConn) serve(call hrpc.Call) {
 		reg.keyFaults[string(call.Key())] = kf[1:]
 		finish(kf[0])
 		deliver(nil, excErr(kf[0]))
+		if kf[0] == "connErr" {
+			s.selfFail()
+		}
 		return
 	}
 	if len(reg.faults) > 0 && !((reg.faults[0] == "FATALMARK" || strings.HasPrefix(reg.faults[0], "REQ:")) && sv.kind == "probe") {
 		k := strings.TrimPrefix(reg.faults[0], "REQ:")
 		reg.faults = reg.faults[1:]
 		if k == "connErr" {
-			// a server-class exception over a healthy connection: the connection stays open
+			// a server-class exception (the regionserver says it is going out of service): the region
+			// client delivers it and fails itself, whether it came in a response header or inside
+			// a multi response
 			atomic.StoreInt32(&s.deadOK, 1)
 		}
 		finish(k)
 		deliver(nil, excErr(k))
+		if k == "connErr" {
+			s.selfFail()
+		}
 		return
 	}
 	if !sv.inRange {
